@@ -469,6 +469,9 @@ func main() {
 			c.addRaw(d.Type, b, d.Off, "replay")
 		case d.Kind == "serialize":
 			c.addSer(d.Type, d.Value, *d.Ser)
+		case strings.HasPrefix(d.Kind, "entry/"):
+			c.addEntry(d.Type, d.Value)
+			c.addDec(d.Type, d.Value, nil, nil)
 		}
 		c.w.Flush()
 		raw2, _ := os.ReadFile(filepath.Join(*out, "cases_C03_0.jsonl"))
